@@ -47,7 +47,11 @@ def generate(rng, heap_bytes, gc):
         b = max(-2**63, min(2**63 - 1, b))  # must stay a valid Int64 literal for the driver
     elif mode == 1:
         a = rng.choice([0, 2, 3, 9])
-        b = rng.choice([0, 1, 100, 1000, 1022, 4093, 8192, 40000, 300000])
+        # retained object lengths: around the TLAB and large-object limits, and large objects
+        # whose size is just above / below a multiple of the 4 KiB OS page and the 64 KiB heap
+        # page (what is committed for them differs most from their size)
+        b = rng.choice([0, 1, 100, 1000, 1022, 4093, 8192, 40000, 300000,
+                        4094, 4096, 4100, 4300, 4607, 4700, 5122, 6145, 8190, 8193, 16386, 65536 + rng.randrange(-3, 4)])
     elif mode == 2:
         a = rng.randrange(7)
         b = rng.choice([0, 1, 3])
